@@ -26,7 +26,7 @@ func main() {
 const header = "From Verif Require Import Base.Prelude Base.Decimal Enc.JsonEnc Misc.Level Api.Exec Harness.C01H."
 
 func run(c *Ctx) {
-	c.Res.Rule = "a case is a whole logging program: global settings, a logger derivation chain (With/UpdateContext with context ops, hooks incl. the library's LevelHook - every harness hook notes the level and message it is handed: they must be the event's level and final message -, byte-neutral Level/Output/Sample, stretches derived while the logger is Disabled or descends from Nop(), stretches derived without a writer - Output(nil) ... Output(w), New(nil) roots; an event logged through a writer-less logger has no line and is judged by the hook monitors only), one event started through WithLevel / the level's method / Logger.Write / Print (level, field ops with nesting Dict/Array/Object/EmbedObject/Fields/Func/errors, message, finalizer); values drawn from class alphabets (escaping/UTF-8 classes, integer/float/time boundaries; directed: json.Marshaler / TextMarshaler values - pretty-printed RawMessage, MarshalIndent types, nil, errors - at the top level and inside containers through every call that ends in InterfaceMarshalFunc, and in a quarter of the Interface/Any values of the random programs; type names with tags, years and zone offsets at the ends of time.Time, neighbouring instants under dot- and comma-fraction layouts, float32 and float64 bit patterns at and next to every threshold of the float text in both widths and signs (C02); another event started on a logger and writer of its own at every kind of place of the program - caller code, callback, marshaler, dict under construction, hook - before / after a Discard(), finalized at once or after the outer event: each inner event is a case of its own, every Write on its writer is accounted for; hook lists in which hooks that draw pooled events - logging through another logger, Dict(), Arr(), Fields with object errors - meet discarding hooks, followed by two more events of the program); corpus of fixed defects first; non-trivial = the event was written and has at least 3 members; distinct by Gallina term"
+	c.Res.Rule = "a case is a whole logging program: global settings, a logger derivation chain (With/UpdateContext with context ops, hooks incl. the library's LevelHook - every harness hook notes the level and message it is handed: they must be the event's level and final message -, byte-neutral Level/Output/Sample, stretches derived while the logger is Disabled or descends from Nop(), stretches derived without a writer - Output(nil) ... Output(w), New(nil) roots; an event logged through a writer-less logger has no line and is judged by the hook monitors only), one event started through WithLevel / the level's method / Logger.Write / Print (level, field ops with nesting Dict/Array/Object/EmbedObject/Fields/Func/errors, message, finalizer); values drawn from class alphabets (escaping/UTF-8 classes, integer/float/time boundaries; directed: json.Marshaler / TextMarshaler values - pretty-printed RawMessage, MarshalIndent types, nil, errors - at the top level and inside containers through every call that ends in InterfaceMarshalFunc, and in a quarter of the Interface/Any values of the random programs; type names with tags, years and zone offsets at the ends of time.Time, neighbouring instants under dot- and comma-fraction layouts, float32 and float64 bit patterns at and next to every threshold of the float text in both widths and signs (C02); another event started on a logger and writer of its own at every kind of place of the program - caller code, callback, marshaler, dict under construction, hook - before / after a Discard(), finalized at once or after the outer event: each inner event is a case of its own, every Write on its writer is accounted for; hook lists in which hooks that draw pooled events - logging through another logger, Dict(), Arr(), Fields with object errors - meet discarding hooks, followed by two more events of the program; groups of loggers sharing one context buffer - relatives obtained from a parent by assignment / Level / Sample / Hook, a logger handed out by a Context that goes on - in which one member rewrites its context through UpdateContext or the Context's continuation, with Reset() first / in the middle / last / absent, and the others and children derived from them log afterwards); corpus of fixed defects first; non-trivial = the event was written and has at least 3 members; distinct by Gallina term"
 	c.OpenShards(header, "c01_case * c01_obs", "mismatches c01_run c01_eqb", 400)
 	n := 3000
 	if c.Thorough() {
@@ -117,6 +117,7 @@ func run(c *Ctx) {
 			c.Count(cs.Coq(o), true)
 		}
 	}
+	runRelatives(c) // loggers that share a context buffer by value: one of them rewrites its context (Reset() included), the others log afterwards
 	switch c.Prop {
 	case "C01":
 		runC01(c, emit)
